@@ -57,7 +57,16 @@ def run(chk: Check) -> None:
         chk.saw(cf.provider(c, "encode"))
         chk.saw(cf.provider(c, "decode"))
         floc = (own_e or own_d).loc()
-        chk.ob("R07.1", "%s:encode~decode" % c.qualname, e == d, floc,
+        same = e == d
+        if not same:
+            # one side may delegate to another codec what the other side spells out
+            try:
+                e2, _, _ = cf.norm_shape(c, "encode", True)
+                d2, _, _ = cf.norm_shape(c, "decode", True)
+                same = e2 == d2
+            except ShapeError:
+                pass
+        chk.ob("R07.1", "%s:encode~decode" % c.qualname, same, floc,
                "%s: the encoder writes %s but the decoder reads %s" % (c.qualname, _s(e), _s(d)), 3)
         for p in pe:
             chk.ob("R07.2", "%s.encode:count-prefix" % c.qualname, False, (own_e or own_d).loc(),
@@ -75,7 +84,7 @@ def run(chk: Check) -> None:
                        cf.provider(c, "decode").loc(call),
                        "%s.decode does not pass its get_by_uuid on to %s: nested UUID/Offset "
                        "entries would come back as plain UUIDs" % (c.qualname, unparse(call.func)), 2)
-    chk.floor("R07.1", "codec classes with bodies", n_dual, 11)
+    chk.floor("R07.1", "codec classes with bodies", n_dual, 7)
     bc = chk.repo.cls_opt("BoolCodec")
     if bc is not None and bc.methods.get("decode") is not None:
         bd = bc.methods["decode"]
@@ -133,7 +142,7 @@ def _param_tables(chk: Check, cf: CodecFacts) -> None:
                    "IEEE: float '<f' 4 bytes, double '<d' 8 bytes)" % (c.qualname, tn, fmt, bs), 3)
             if tn:
                 by_typname[tn] = c
-    chk.floor("R07.3", "integer/float codec subclasses", n, 10)
+    chk.floor("R07.3", "integer/float codec subclasses", n, 7)
     # the codec table
     loc = cf.ser.loc(cf.table_node) if cf.table_node is not None else cf.ser.loc()
     for h in HEADS:
@@ -171,11 +180,19 @@ def _tree_dispatch(chk: Check, cf: CodecFacts) -> None:
                  and isinstance(c.func, ast.Attribute) and c.func.attr == direction]
         ok = len(calls) == 1
         msg = "expected exactly one codec.%s call" % direction
+        import copy as _copy
+
+        def expand(e: ast.AST, depth: int = 0) -> ast.AST:
+            """locals assigned once replaced by what they stand for"""
+            class S(ast.NodeTransformer):
+                def visit_Name(self, n: ast.Name) -> ast.AST:
+                    if isinstance(n.ctx, ast.Load) and n.id in al and depth < 4:
+                        return expand(_copy.deepcopy(al[n.id]), depth + 1)
+                    return n
+            return S().visit(_copy.deepcopy(e))
         if ok:
             c = calls[0]
-            recv = c.func.value
-            if isinstance(recv, ast.Name) and recv.id in al:
-                recv = al[recv.id]
+            recv = expand(c.func.value)
             good_recv = isinstance(recv, ast.Subscript) and attr_path(recv.value) == (me, "codecs") \
                 and attr_path(recv.slice) == (tname, "name")
             kws = {k.arg: k.value for k in c.keywords}
@@ -190,8 +207,8 @@ def _tree_dispatch(chk: Check, cf: CodecFacts) -> None:
             # unknown head -> UnknownCodecError before the call
             guard = cfg.nodes_where(lambda n: isinstance(n, ast.Compare) and len(n.ops) == 1
                                     and isinstance(n.ops[0], (ast.NotIn, ast.In))
-                                    and attr_path(n.left) == (tname, "name")
-                                    and attr_path(n.comparators[0]) == (me, "codecs"))
+                                    and attr_path(expand(n.left)) == (tname, "name")
+                                    and attr_path(expand(n.comparators[0])) == (me, "codecs"))
             cn = cfg.node_of(c)
             g_ok = bool(guard) and all(cfg.dominates(g, cn) for g in guard)
             # the dispatch happens on the 'known head' outcome, the other one raises UnknownCodecError
